@@ -119,6 +119,8 @@ def cmd_selftest(args):
     from gemsim import selftest
     if args.what == "determinism":
         return selftest.determinism(args.props or None, args.n)
+    if args.what == "pool":
+        return selftest.pool_determinism(args.props or None, args.n)
     if args.what == "mutants":
         return selftest.mutants(args.props or None)
     return 2
